@@ -104,10 +104,6 @@ Fixpoint unravel_gen (full : bool) (n : node) {struct n} : M (list string) :=
   end.
 Definition unravel_names : node -> M (list string) := unravel_gen false.
 
-(* Context.add_identifiers_to_context / remove_identifiers_from_context *)
-Definition add_identifiers (target : node) : M unit :=
-  names <- unravel_names target ;;
-  mapM_ (fun nm => mod_ctx (fun c => ctx_add c (mkSym nm KName) false)) names.
 
 Definition params_all (ps : params) : list string :=
   p_posonly ps ++ p_args ps ++ opt_list (p_vararg ps) ++ p_kwonly ps ++ opt_list (p_kwarg ps).
@@ -183,6 +179,19 @@ Fixpoint all_chars (f : ascii -> bool) (s : string) : bool :=
   match s with EmptyString => true | String c r => f c && all_chars f r end.
 Definition isidentifier (s : string) : bool :=
   match s with EmptyString => false | String c r => is_ident_start c && all_chars is_ident_char r end.
+
+(* str.lstrip("*") *)
+Fixpoint lstrip_star (s : string) : string :=
+  match s with
+  | String c r => if Ascii.eqb c "*"%char then lstrip_star r else s
+  | EmptyString => s
+  end.
+
+(* Context.add_identifiers_to_context: only the targets that are plain (possibly starred) names are defined -
+   `p.a = v` and `q[0] = v` set a part of p / q and do not define p / q (fix: the base names were registered before) *)
+Definition add_identifiers (target : node) : M unit :=
+  names <- unravel_gen true target ;;
+  mapM_ (fun nm => mod_ctx (fun c => ctx_add c (mkSym nm KName) false)) (filter isidentifier (map lstrip_star names)).
 
 (* Context.remove_identifiers_from_context: only the targets that are plain names are undefined - `del p.a` and
    `del q[0]` leave p and q defined (fix 0e6fa15; the base names were removed before) *)
